@@ -359,8 +359,22 @@ func c12gen(c *h.Ctx, yield func(*h.Case)) {
 	}
 	pname := []string{"one-host", "distinct", "alternating", "mixed"}
 	// --- the known finding, always run -----------------------------------------------------------
-	emit("witness", []string{"c12 big 2 7 0,0,0"})
-	emit("witness", []string{"c12 big 3 4 0,1,0,1,0"})
+	// (corpus/C12/*.ops holds the witnesses as files; the built-in copy is used when they are missing)
+	corpus := fix.LoadCorpus("C12")
+	haveOp := map[string]bool{}
+	for _, cs := range corpus {
+		for _, o := range cs.Ops {
+			haveOp[o] = true
+		}
+	}
+	for _, w := range []string{"c12 big 2 7 0,0,0", "c12 big 3 4 0,1,0,1,0"} {
+		if !haveOp[w] {
+			emit("witness", []string{w})
+		}
+	}
+	for _, cs := range corpus {
+		emit(cs.Class, cs.Ops)
+	}
 	// --- n-ary / binary / star: every roster size, branching factor and root ---------------------
 	maxn := c.Pick(16, 40)
 	for n := 1; n <= maxn; n++ {
@@ -375,8 +389,8 @@ func c12gen(c *h.Ctx, yield func(*h.Case)) {
 			fmt.Sprintf("c12 binary %d", n), fmt.Sprintf("c12 star %d", n))
 		emit(fmt.Sprintf("nary exhaustive n=%d", n), ops)
 	}
-	for i := 0; i < c.Pick(40, 400); i++ {
-		n := 1 + r.Intn(c.Pick(300, 2000))
+	for i := 0; i < c.Pick(40, 150); i++ {
+		n := 1 + r.Intn(c.Pick(300, 1200))
 		N := 1 + r.Intn(12)
 		if r.Intn(4) == 0 {
 			N = 1 + r.Intn(n+2)
@@ -401,7 +415,7 @@ func c12gen(c *h.Ctx, yield func(*h.Case)) {
 		}
 	}
 	// --- big generator: random host layouts, sampled sizes up to 2000 nodes ----------------------
-	for i := 0; i < c.Pick(150, 3000); i++ {
+	for i := 0; i < c.Pick(150, 800); i++ {
 		n := 1 + r.Intn(c.Pick(20, 60))
 		if r.Intn(10) == 0 {
 			n = 1 + r.Intn(c.Pick(200, 1000))
